@@ -162,10 +162,14 @@ package dag
 // The worker: takes a slot, locks the task, runs the task function at most Retries+1 times strictly one after
 // another stopping at the first nil, flushes each attempt's buffered output under the buffer mutex, reports once.
 // Its frame proves that task status and the error list are written by the scheduler loop only.
+// Buffered output (C15): every flush of a task attempt's buffer to the shared writer happens with the graph's buffer mutex
+// held by this worker, exactly once per attempt when buffering is on - so the block cannot interleave with another task's.
+//@ ghost local $flushes int
 //@ func (*Graph).Run$3
 //@   props C13 C14 C15 C19
+//@   atcall WriteTo flush.locked {C15}: locked(g.bufferMutex)
 //@   requires worker.pre: v != nil && done != nil && semaphore != nil && v.Task != nil && v.Task.Fn != nil && g != nil && v.Retries < 9223372036854775807
-//@   modifies $sends_done, $sent_done, $sends_semaphore, $sent_semaphore, $recvs_semaphore, $received_semaphore, $tasklocks, $out, $out_other, $compout,
+//@   modifies $sends_done, $sent_done, $sends_semaphore, $sent_semaphore, $recvs_semaphore, $received_semaphore, $tasklocks, $flushes, $out, $out_other, $compout,
 //@     $cmdcalls, $cmdfn, $cmdctx, $cmdview, $cmdviewfinal, $cmdargs, $cmdresult, $exits, $exitcode
 //@   ensures worker.msg {C13,C14}: $sends_done == old($sends_done) + 1 && $sent_done.ID == old(v.ID)
 //@   ensures worker.slot {C15}: $sends_semaphore == old($sends_semaphore) + 1 && $recvs_semaphore == old($recvs_semaphore) + 1
@@ -178,6 +182,7 @@ package dag
 //@     invariant att.nosend {C13}: $sends_done == old($sends_done)
 //@     invariant att.same: v == old(v) && v.Retries == old(v.Retries) && v.ID == old(v.ID) && v.Task != nil && v.Task.Fn != nil && done == old(done) && g != nil && g == old(g)
 //@     invariant att.bound {C13}: i <= v.Retries + 1 || i == 0
+//@     step att.flush {C15}: $entered ==> $flushes == old_iter($flushes) + ite(g.bufferOutput, 1, 0)
 //@     step att.once {C13,C15}: !$exit ==> $cmdcalls == old_iter($cmdcalls) + 1 && i == old_iter(i) + 1 && err != nil
 //@     step att.stop {C13}: $exit && $entered ==> $cmdcalls == old_iter($cmdcalls) + 1 && err == nil && err == $cmdresult
 //@     decreases v.Retries - i + 1
